@@ -1,5 +1,5 @@
 HEAD = r'''//# unit type_table kind=kani_in crate=rusty_linter inject=rusty_linter/src/core/casting.rs
-//# assume "the VM executes a binary operator as in rusty_basic/src/interpreter/handlers/{math,comparison,logical}.rs: + - * / MOD call the Variant method on (A, B); relational operators call A.try_cmp(&B) and store -1/0; AND/OR cast A and B to INTEGER (CastVariant::cast) and then call Variant::and/or.  `vm_binary` below restates that glue (3 lines per handler); the Variant methods, `cast`, `cast_binary_op_q`, `bigger_numeric_type` and `can_cast_to` themselves are the real code."
+//# assume "the VM executes a binary operator as in rusty_basic/src/interpreter/handlers/{math,comparison,logical}.rs: + - * MOD call the Variant method on (A, B); / calls rusty_linter::core::qb_divide on (A, B) (the real function, run here as it is); relational operators call A.try_cmp(&B) and store -1/0; AND/OR cast A and B to INTEGER (CastVariant::cast) and then call Variant::and/or.  `vm_binary` below restates that glue (3 lines per handler); the Variant methods, `qb_divide`, `cast`, `cast_binary_op_q`, `bigger_numeric_type` and `can_cast_to` themselves are the real code."
 //! C12 / C06 — the operator typing table of the checker against the run-time operators.  Contract (property
 //! statement): if the checker accepts an operator application, executing it can never raise Type mismatch nor
 //! apply the operator to an operand of the wrong kind; conversely the table rejects nothing that would run:
@@ -9,10 +9,13 @@ HEAD = r'''//# unit type_table kind=kani_in crate=rusty_linter inject=rusty_lint
 //!   cast_binary_op_q(l, r, op) == None     =>  the VM operator does return TypeMismatch;
 //!   q1.can_cast_to(q2)  <=>  cast(v: q1, q2) != TypeMismatch;   unary minus / NOT: numeric kinds keep their tag,
 //!   strings are TypeMismatch.
-//! The table itself is also compared with the reference rule (arithmetic: the wider numeric type, `$ + $ = $`;
+//! The table itself is also compared with the reference rule (+ - *: the wider numeric type, `$ + $ = $`;
+//! `/`: floating-point division, SINGLE when both operands are INTEGER or SINGLE, DOUBLE when either is LONG or DOUBLE;
 //! relational: INTEGER when both numeric or both strings; AND/OR/MOD: INTEGER when both numeric).
 //! All 13 operators x 5 x 5 qualifiers, payloads fully symbolic and valid; strings with length <= 1.
-//! Known findings: F5 (`/` re-tags its result: 7 / 2 is SINGLE 3.5 where the table says INTEGER),
+//! Known findings: F5 (`/` re-tagged its result: 7 / 2 was SINGLE 3.5 where the table said INTEGER; repaired: the
+//!                 table types `/` as above and the VM/folder divide through `qb_divide`, which converts both operands
+//!                 and the quotient to that type),
 //!                 F18 (MOD gives TypeMismatch when an operand rounds beyond the LONG range).
 
 use rusty_variant::{Variant, VariantError};
@@ -42,7 +45,12 @@ fn reference(l: Q, r: Q, op: Operator) -> Option<Q> {
     let both_strings = l == Q::DollarString && r == Q::DollarString;
     match op {
         Operator::Plus => if both_strings { Some(Q::DollarString) } else { wider(l, r) },
-        Operator::Minus | Operator::Multiply | Operator::Divide => wider(l, r),
+        Operator::Minus | Operator::Multiply => wider(l, r),
+        Operator::Divide => {
+            // floating-point division: SINGLE when both operands are INTEGER or SINGLE, DOUBLE when either is LONG or DOUBLE
+            let long_or_double = |q: Q| q == Q::AmpersandLong || q == Q::HashDouble;
+            if !both_numeric { None } else if long_or_double(l) || long_or_double(r) { Some(Q::HashDouble) } else { Some(Q::BangSingle) }
+        }
         Operator::Less | Operator::LessOrEqual | Operator::Equal | Operator::GreaterOrEqual | Operator::Greater | Operator::NotEqual => {
             if both_numeric || both_strings { Some(Q::PercentInteger) } else { None }
         }
@@ -126,7 +134,7 @@ fn vm_binary(op: Operator, a: Variant, b: Variant) -> Out {
         Operator::Plus => out_v(a.plus(b)),
         Operator::Minus => out_v(a.minus(b)),
         Operator::Multiply => out_v(a.multiply(b)),
-        Operator::Divide => out_v(a.divide(b)),
+        Operator::Divide => out_l(qb_divide(a, b)),
         Operator::Modulo => out_v(a.modulo(b)),
         Operator::And | Operator::Or => {
             let ca = a.cast(Q::PercentInteger);
@@ -233,9 +241,9 @@ for k1 in ORDER:
         body = decl
         for o in OPS:
             if o == 'Divide' and K[k1]['fl'] and K[k2]['fl']:
-                # |divisor| >= 1e-5 whenever a division happens, so the quotient stays finite (beyond: finding F26; Kani would
-                # otherwise flag the NaN that `fit_to_type` computes internally from an infinite quotient)
-                body += '    vs::assume((a as f64).abs() <= %s);\n' % ('1.0e303' if 'double' in (k1, k2) else '3.0e33')
+                # finding F26 (open): |divisor| >= 1e-5 whenever a division happens, so with this bound the quotient stays
+                # finite (Kani would otherwise flag the NaN that `fit_to_type` computed internally from an infinite quotient)
+                body += '    if KF_F26 {\n        vs::assume((a as f64).abs() <= %s);\n    }\n' % ('1.0e303' if 'double' in (k1, k2) else '3.0e33')
             if o == 'Modulo':
                 body += carve.replace(' && op == Operator::Modulo', '')  # last operator: the carve-out restricts nothing before it
             body += ('    let out = vm_binary(Operator::%s, %s, %s);\n' % (o, K[k1]['ctor'].format(n='a'), K[k2]['ctor'].format(n='b')) +
@@ -385,6 +393,139 @@ harness!(unary_string, 2, {
 });
 ''')
 open('' + __import__('os').path.join(__import__('os').path.dirname(__import__('os').path.abspath(__file__)), '..', 'kani_in', '') + 'type_table.rs', 'w').write(''.join(out))
+
+# ------------------------------------------------------------------------------------------------- unit qb_divide
+QD = r"""//# unit qb_divide kind=kani_in crate=rusty_linter inject=rusty_linter/src/core/casting.rs stubbing=1
+//# assume "modular obligation: Variant::divide is replaced (Kani stub) by an arbitrary deterministic function of its two operands (kind and payload bits); its body is under contract in unit variant_arith (SINGLE x SINGLE and DOUBLE x DOUBLE are the only pairs qb_divide hands it).  What is proved here is the glue: WHICH operands Variant::divide receives and what happens to its outcome"
+//# assume "exact conversions of the reference: INTEGER/LONG/SINGLE -> SINGLE/DOUBLE by `as` (INTEGER and SINGLE are exact in SINGLE, everything is exact in DOUBLE); that CastVariant::cast does the same is proved in unit casts"
+// C01 / C06 / C12 -- `rusty_linter::core::qb_divide`, the floating-point division that the handler of the Divide
+// instruction (handlers/math.rs, unit handlers) and the constant folder (unit const_step) both call.  Contract, from
+// the language semantics: `/` converts BOTH operands to the type t of the quotient (SINGLE when both are INTEGER or
+// SINGLE, DOUBLE when either is LONG or DOUBLE), divides in that type, and the value left in A has type t:
+//   qb_divide(a: k1, b: k2) == convert_t( Variant::divide( V_t(a as t), V_t(b as t) ) )      errors passed on unchanged.
+// One harness per kind pair, payloads fully symbolic and valid: loop-free, complete.
+
+use rusty_parser::TypeQualifier as Q;
+use rusty_variant::VariantError;
+
+#[cfg(kani)]
+static mut QD_MEMO: Option<(u8, u64, u8, u64, u8, u64)> = None;
+
+#[cfg(kani)]
+fn qd_key(v: &Variant) -> (u8, u64) {
+    match v {
+        Variant::VSingle(f) => (0, f.to_bits() as u64),
+        Variant::VDouble(f) => (1, f.to_bits()),
+        Variant::VInteger(i) => (2, *i as u32 as u64),
+        Variant::VLong(i) => (3, *i as u64),
+        _ => (4, 0),
+    }
+}
+
+#[cfg(kani)]
+fn qd_outcome(k: u8, p: u64) -> Result<Variant, VariantError> {
+    match k {
+        0 => Ok(Variant::VSingle(f32::from_bits(p as u32))),
+        1 => Ok(Variant::VDouble(f64::from_bits(p))),
+        2 => Ok(Variant::VInteger(p as u32 as i32)),
+        3 => Ok(Variant::VLong(p as i64)),
+        4 => Err(VariantError::DivisionByZero),
+        5 => Err(VariantError::Overflow),
+        _ => Err(VariantError::TypeMismatch),
+    }
+}
+
+// an arbitrary deterministic function of (kind, payload bits) of both operands: the first call picks any outcome
+// (any valid numeric value of any kind, or any of the three errors) and remembers it for these operands; a later call
+// with the same operands returns the same outcome, with other operands an unrelated one
+#[cfg(kani)]
+fn any_divide(a: Variant, b: Variant) -> Result<Variant, VariantError> {
+    let (ka, pa) = qd_key(&a);
+    let (kb, pb) = qd_key(&b);
+    std::mem::forget(a);
+    std::mem::forget(b);
+    unsafe {
+        if let Some((ma, mpa, mb, mpb, rk, rp)) = QD_MEMO {
+            if ma == ka && mpa == pa && mb == kb && mpb == pb {
+                return qd_outcome(rk, rp);
+            }
+        }
+        let rk: u8 = kani::any();
+        kani::assume(rk < 7);
+        let rp: u64 = kani::any();
+        QD_MEMO = Some((ka, pa, kb, pb, rk, rp));
+        qd_outcome(rk, rp)
+    }
+}
+
+fn qd_valid(v: &Variant) -> bool {
+    match v {
+        Variant::VInteger(i) => (-32768..=32767).contains(i),
+        Variant::VLong(l) => (-2147483648..=2147483647).contains(l),
+        Variant::VSingle(f) => f.is_finite(),
+        Variant::VDouble(d) => d.is_finite(),
+        _ => true,
+    }
+}
+
+/// the obligation: `got` is `inner` (what Variant::divide answered for the converted operands) converted to SINGLE
+fn qd_check_single(got: &Result<Variant, LintError>, inner: &Result<Variant, VariantError>) {
+    match inner {
+        Ok(v) => {
+            let expected: f32 = match v {
+                Variant::VInteger(i) => *i as f32,
+                Variant::VLong(l) => *l as f32,
+                Variant::VSingle(f) => *f,
+                _ => 0.0, // excluded by the harness: a DOUBLE quotient of two SINGLEs
+            };
+            assert!(matches!(got, Ok(Variant::VSingle(f)) if f.to_bits() == expected.to_bits()), "the quotient is not converted to SINGLE / not the quotient of the converted operands");
+        }
+        Err(VariantError::DivisionByZero) => assert!(matches!(got, Err(LintError::DivisionByZero)), "Division by zero not passed on"),
+        Err(VariantError::Overflow) => assert!(matches!(got, Err(LintError::Overflow)), "Overflow not passed on"),
+        Err(VariantError::TypeMismatch) => assert!(matches!(got, Err(LintError::TypeMismatch)), "Type mismatch not passed on"),
+    }
+}
+
+/// ... converted to DOUBLE
+fn qd_check_double(got: &Result<Variant, LintError>, inner: &Result<Variant, VariantError>) {
+    match inner {
+        Ok(v) => {
+            let expected: f64 = match v {
+                Variant::VInteger(i) => *i as f64,
+                Variant::VLong(l) => *l as f64,
+                Variant::VSingle(f) => *f as f64,
+                Variant::VDouble(d) => *d,
+                _ => 0.0,
+            };
+            assert!(matches!(got, Ok(Variant::VDouble(f)) if f.to_bits() == expected.to_bits()), "the quotient is not converted to DOUBLE / not the quotient of the converted operands");
+        }
+        Err(VariantError::DivisionByZero) => assert!(matches!(got, Err(LintError::DivisionByZero)), "Division by zero not passed on"),
+        Err(VariantError::Overflow) => assert!(matches!(got, Err(LintError::Overflow)), "Overflow not passed on"),
+        Err(VariantError::TypeMismatch) => assert!(matches!(got, Err(LintError::TypeMismatch)), "Type mismatch not passed on"),
+    }
+}
+"""
+qd = [QD]
+for k1 in ORDER:
+    for k2 in ORDER:
+        dbl = 'long' in (k1, k2) or 'double' in (k1, k2)
+        t, ctor, chk, q = ('f64', 'Variant::VDouble', 'qd_check_double', 'Q::HashDouble') if dbl else ('f32', 'Variant::VSingle', 'qd_check_single', 'Q::BangSingle')
+        decl = '    ' + K[k1]['decl'].format(n='a') + '\n    ' + K[k2]['decl'].format(n='b') + '\n'
+        body = (decl +
+                '    // the reference: both operands converted (exactly) to the type of the quotient, then Variant::divide\n' +
+                '    let inner = %s(a as %s).divide(%s(b as %s));\n' % (ctor, t, ctor, t) +
+                '    if let Ok(v) = &inner {\n        vs::assume(qd_valid(v)); // C06 of Variant::divide (unit variant_arith)\n' +
+                ('' if dbl else '        vs::assume(!matches!(v, Variant::VDouble(_))); // SINGLE / SINGLE is never a DOUBLE (unit variant_arith: exact(v) == the SINGLE quotient)\n') +
+                '    }\n' +
+                '    let got = qb_divide(%s, %s);\n' % (K[k1]['ctor'].format(n='a'), K[k2]['ctor'].format(n='b')) +
+                '    assert!(cast_binary_op_q(%s, %s, Operator::Divide) == Some(%s), "the table types this quotient differently");\n' % (K[k1]['q'], K[k2]['q'], q) +
+                '    %s(&got, &inner);\n' % chk +
+                '    reach!(matches!(&got, Ok(_)));\n    reach!(matches!(&got, Err(LintError::DivisionByZero)));\n    reach!(matches!(&got, Err(LintError::Overflow)));\n' +
+                '    reach!(matches!(&inner, Ok(Variant::VInteger(_))));\n' +
+                '    std::mem::forget(got);\n    std::mem::forget(inner);\n')
+        qd.append('\n//# harness qb_divide_%s_%s tier=quick label=complete props=C01,C06,C12 fn=rusty_linter/src/core/casting.rs::qb_divide\n'
+                  'harness!(qb_divide_%s_%s, 2, stub(rusty_variant::Variant::divide, any_divide), {\n%s});\n' % (k1, k2, k1, k2, body))
+open('' + __import__('os').path.join(__import__('os').path.dirname(__import__('os').path.abspath(__file__)), '..', 'kani_in', '') + 'qb_divide.rs', 'w').write(''.join(qd))
 
 UN = r'''//# unit type_table_unary kind=kani_in crate=rusty_linter inject=rusty_linter/src/converter/expr_rules/unary.rs
 //! C12 — static side of unary minus / NOT: the checker accepts the operator exactly on the four numeric built-in
